@@ -590,6 +590,7 @@ func (ec *evalCtx) selectField(e ast.Expr, v T, t types.Type, name string) (T, t
 				continue
 			}
 			cur = vc.hload(ec.now, fieldKey(si, idx), vc.sortOf(ft), cur.S)
+			vc.refFacts(ec.now, cur, ft)
 			ct = ft
 		} else {
 			si := vc.structOf(ct)
@@ -648,7 +649,7 @@ func (ec *evalCtx) call(x *ast.CallExpr) (T, types.Type, error) {
 		case SInt:
 			if _, ok := t.Underlying().(*types.Map); ok {
 				mk := vc.mapInfo(t)
-				return vc.hload(ec.now, mk.len, SInt, v.S), types.Typ[types.Int], nil
+				return T{S: ite(eq(v.S, "0"), "0", vc.hload(ec.now, mk.len, SInt, v.S).S), Sort: SInt}, types.Typ[types.Int], nil
 			}
 		}
 		return T{}, nil, ec.errf(x, "len of %s", v.Sort)
@@ -770,6 +771,20 @@ func (ec *evalCtx) call(x *ast.CallExpr) (T, types.Type, error) {
 			arr = ec.now.callsR
 		}
 		return T{S: app("select", arr, i.S), Sort: SInt}, nil, nil
+	case "typeis":
+		// typeis(x, T): the dynamic type of interface value x is T
+		if err := argN(2); err != nil {
+			return T{}, nil, err
+		}
+		v, _, err := ec.eval(x.Args[0])
+		if err != nil {
+			return v, nil, err
+		}
+		tt, err := ec.typeExpr(x.Args[1])
+		if err != nil {
+			return T{}, nil, err
+		}
+		return T{S: eq(app("ityp", v.S), fmt.Sprint(vc.typeID(tt))), Sort: SBool}, types.Typ[types.Bool], nil
 	case "isfresh":
 		v, _, err := ec.eval(x.Args[0])
 		if err != nil {
